@@ -1,5 +1,7 @@
 package font
 
+import "unicode/utf8"
+
 // Font represents a PDF font
 type Font struct {
 	Name     string
@@ -92,8 +94,14 @@ func (f *Font) DecodeString(data []byte) string {
 		return NormalizeUnicode(decoded)
 	}
 
-	// Priority 4: Fall back to raw bytes as string
-	decoded = string(data)
+	// Priority 4: Fall back to raw bytes as string. Arbitrary bytes are not
+	// necessarily valid UTF-8; the library only returns valid UTF-8, so anything
+	// else is read as PDFDocEncoding (a superset of Latin-1 text).
+	if utf8.Valid(data) {
+		decoded = string(data)
+	} else {
+		decoded = PDFDocEncoding.DecodeString(data)
+	}
 	return NormalizeUnicode(decoded)
 }
 
